@@ -35,6 +35,9 @@ impl Prop for C01P {
             v.push(format!("extra:wide:{}", k));
         }
         v.extend(super::array_bfs::chain_units('U', true, tier));
+        for (c, r) in super::hugezst::mid_shapes(tier) {
+            v.push(format!("extra:mid:{}x{}", c, r));
+        }
         v
     }
     fn run_unit(&self, unit: &str, ctx: &mut Ctx) {
@@ -45,6 +48,11 @@ impl Prop for C01P {
         }
         if unit.starts_with("extra:chain:") {
             super::array_bfs::run_chain_unit(unit, ctx);
+            return;
+        }
+        if let Some(shape) = unit.strip_prefix("extra:mid:") {
+            let (c, r) = super::hugezst::parse_shape(shape);
+            run_mid(c, r, ctx);
             return;
         }
         if let Some(k) = unit.strip_prefix("extra:wide:") {
@@ -68,6 +76,7 @@ impl Prop for C01P {
          Outside the cap: (i) arrays of () with close to usize::MAX cells (usize::MAX x 1, 1 x usize::MAX, MAX/k x k, 2^32 x (2^32-1), ...) from init / new / from_vec / from_box, then swap_dimensions, then clear: the shape invariant and the reported lengths of rows(), cells(), col(first), col(last) at every step; \
          (ii) wide and tall arrays (21, 33, 40, 48 lines, exact and spare capacity) through the in-place algorithms - sorts on tie-rich key lines (std's unstable sort only differs from a stable one beyond 20 elements), flips, translate, swaps - against the model. \
          (iii) two-step (thorough: also three-step, from the shapes up to 2x2) histories on ONE live object (nothing re-materialised between the steps, so spare capacity and stale bits beyond the length are carried over): from the distinct-label array of each shape up to 3x2 / 2x3, every action (exact and spare capacity) followed by every action of the state reached, with the same oracle after each step. \
+         (iv) arrays whose dimensions cross 256 (thorough: 65536 - sizes at which a narrowed integer would truncate and library algorithms change strategy): insertion, removal (drains consumed from both ends), pop / push, clear, swap_dimensions, flips, translate, swaps, sorts, fill, copy_within at the first, a middle and the last index, exact and spare capacity, against the model. \
          Afterwards each state's shortest history is replayed on one live object and must reach the recorded key (traces_validated_against_impl)."
             .into()
     }
@@ -179,6 +188,75 @@ fn run_wide(k: usize, ctx: &mut Ctx) {
                     );
                 }
             }
+        }
+    }
+}
+
+/// Arrays whose dimensions cross 256 / 65536 through one action each, against the model (same oracle as the search).
+fn run_mid(c: usize, r: usize, ctx: &mut Ctx) {
+    let labels: Vec<u32> = (0..(c * r) as u32).map(|i| (i * 7 + 3) % 1000).collect();
+    let mut acts: Vec<Act> = Vec::new();
+    for i in [0, r / 2, r] {
+        acts.push(Act::new("ir", &[i, c]));
+    }
+    for i in [0, c / 2, c] {
+        acts.push(Act::new("ic", &[i, r]));
+    }
+    acts.push(Act::new("pr", &[c]));
+    acts.push(Act::new("pc", &[r]));
+    for i in [0, r / 2, r - 1] {
+        for (f, b) in [(0, 0), (1, 1), (c / 2, 0), (0, c / 2)] {
+            if f + b <= c {
+                acts.push(Act::new("rr", &[i, f, b]));
+            }
+        }
+    }
+    for i in [0, c / 2, c - 1] {
+        for (f, b) in [(0, 0), (1, 1), (r / 2, 0), (0, r / 2)] {
+            if f + b <= r {
+                acts.push(Act::new("rc", &[i, f, b]));
+            }
+        }
+    }
+    acts.push(Act::new("qr", &[1.min(c), 0]));
+    acts.push(Act::new("qc", &[0, 1.min(r)]));
+    for op in ["clr", "sd", "flr", "flc", "fill", "shr"] {
+        acts.push(Act::new(op, &[]));
+    }
+    acts.push(Act::new("trn", &[c / 2, r / 2]));
+    acts.push(Act::new("trn", &[1.min(c - 1), r - 1]));
+    acts.push(Act::new("swr", &[0, r - 1]));
+    acts.push(Act::new("swc", &[0, c - 1]));
+    acts.push(Act::new("swp", &[0, 0, c - 1, r - 1]));
+    for i in [0, r - 1] {
+        acts.push(Act::new("srt", &[i]));
+    }
+    for i in [0, c - 1] {
+        acts.push(Act::new("sct", &[i]));
+    }
+    acts.push(Act::new("cpw", &[0, 0, c / 2, r / 2 + 1, c - c / 2, r - r / 2 - 1]));
+    acts.push(Act::new("wr", &[c - 1, r - 1]));
+    acts.push(Act::new("rrx", &[r / 2, 2]));
+    acts.push(Act::new("rcx", &[c / 2, 3]));
+    for act in acts {
+        for cap in ['x', 's'] {
+            let mut act = act.clone();
+            act.cap = cap;
+            ctx.case(
+                || format!("{}x{} array: action {}", c, r, act.enc()),
+                |cs| {
+                    cs.transitions = 1;
+                    cs.outcome("accepted");
+                    cs.nontrivial((c, r, &act.op, &act.a, cap));
+                    let mut t: TooDee<u32> = materialize(c, r, &labels, cap == 's');
+                    let mut model: Model<u32> = Model::from_flat(c, r, &labels);
+                    let panicked = apply(&mut t, &mut model, &act, cs);
+                    if panicked {
+                        cs.fail("mid:panics-on-valid", format!("{} panicked on a {}x{} array", act.enc(), c, r));
+                    }
+                    check_state(&t, &model, cs, &format!("after {}", act.enc()));
+                },
+            );
         }
     }
 }
